@@ -61,4 +61,26 @@ def addSeq (step : CState → Event → Res CState) : CState → List Event → 
     | .ok c' => addSeq step c' es
     | _ => let r := addSeq step c es; (r.1, r.2 + 1)
 
+/-! ### overlapping Adds: why `add` may be one atomic step of the model
+
+  `store.Add` reads the event list, decides (duplicate? where to insert? what to re-apply?) and writes the list back
+  inside ONE write transaction, and write transactions are serialised. So however two Adds overlap, their event
+  transactions happen one after the other: a concurrent schedule IS an arrival sequence, and `addDid`/`add` as single
+  steps lose nothing. The variant below takes the decision on an event list captured BEFORE the write transaction
+  (a read-only transaction, then the write): the classic lost update. -/
+
+/-- two overlapping check-then-act Adds of `a` and `b` on state `st`: both capture `st`, `a` writes its result, then `b`
+    writes the result it computed from the stale capture -/
+def addStalePair (cfg : Cfg) (st : DidState) (a b : Event) : Res DidState :=
+  match addDid cfg st a with
+  | .err x => .err x
+  | .panic x => .panic x
+  | .ok ra =>
+    let afterA := match ra with | some s => s | none => st
+    match addDid cfg st b with          -- computed from the capture `st`, not from `afterA`
+    | .err x => .err x
+    | .panic x => .panic x
+    | .ok none => .ok afterA
+    | .ok (some sb) => .ok sb
+
 end Nuts.C10
